@@ -1,6 +1,6 @@
 (* Extraction of the executable models and specs to OCaml. ExtrOcamlBasic only: bool, option, unit,
    list, prod, sumbool, sumor mapped to OCaml's; N, Z, positive, nat stay Coq datatypes. *)
-From HV Require Import Base_Bytes Spec_SHA Spec_HMAC Model_BlockHash Model_Sha2Ctx Model_Sha1Ctx Model_Hash Model_Hmac Base_Result Spec_OTP Model_Otp Spec_KDF Model_Kdf Model_CtEq.
+From HV Require Import Base_Bytes Spec_SHA Spec_HMAC Model_BlockHash Model_Sha2Ctx Model_Sha1Ctx Model_Hash Model_Hmac Base_Result Spec_OTP Model_Otp Spec_KDF Model_Kdf Model_CtEq Model_Token Proofs_Token.
 Require Import ExtrOcamlBasic.
 Extraction Language OCaml.
 Extraction "model.ml"
@@ -14,4 +14,5 @@ Extraction "model.ml"
   HOTP_spec TOTP_spec DT hotp_from_digest get_hotp_code get_totp_code_at get_totp_code
   is_totp_token_valid_at is_totp_token_valid_now
   PBKDF2_spec HKDF_extract_spec HKDF_expand_spec pbkdf2_vec pbkdf2_buf pbkdf2_with_pepper hkdf_extract hkdf_expand hkdf_key_iv
+  generate_time_token is_token_valid candidates to_string rounded
   ct_equals.
